@@ -1,9 +1,9 @@
 package keeper
 
 import (
-	authtypes "github.com/cosmos/cosmos-sdk/x/auth/types"
 	"context"
 	"errors"
+	authtypes "github.com/cosmos/cosmos-sdk/x/auth/types"
 
 	storetypes "cosmossdk.io/store/types"
 	"github.com/cosmos/cosmos-sdk/codec/address"
@@ -90,7 +90,9 @@ func (e *VEVM) GetValidatorAddressByEthAddress(ctx context.Context, ethAddr type
 	return nil, false, nil
 }
 
-func (e *VEVM) HasAnySmartContractDeployment(ctx context.Context, chainReferenceID string) bool { return false }
+func (e *VEVM) HasAnySmartContractDeployment(ctx context.Context, chainReferenceID string) bool {
+	return false
+}
 func (e *VEVM) GetActiveChainNames(ctx context.Context) []string {
 	if e.Chains != nil {
 		return e.Chains
@@ -129,7 +131,9 @@ func (VAccounts) GetSequence(ctx context.Context, addr sdk.AccAddress) (uint64, 
 func (VAccounts) NewAccountWithAddress(ctx context.Context, addr sdk.AccAddress) sdk.AccountI {
 	return authtypes.NewBaseAccountWithAddress(addr)
 }
-func (VAccounts) GetModuleAddress(moduleName string) sdk.AccAddress { return authtypes.NewModuleAddress(moduleName) }
+func (VAccounts) GetModuleAddress(moduleName string) sdk.AccAddress {
+	return authtypes.NewModuleAddress(moduleName)
+}
 func (VAccounts) GetModuleAccount(ctx context.Context, moduleName string) sdk.ModuleAccountI {
 	return authtypes.NewEmptyModuleAccount(moduleName)
 }
